@@ -42,11 +42,18 @@ def semantic_parsers(schema):
         "multifield.or": (qparser.MultifieldParser(["body", "title"], schema, group=syntax.OrGroup,
                                                    fieldboosts={"body": 1.0, "title": 2.0}),
                           {"group": "or", "fields": ["body", "title"], "multi": "or"}, "full"),
+        "default+gtlt": (_with(qparser.QueryParser("body", schema), qparser.GtLtPlugin()),
+                         {"group": "and", "fields": ["body"], "multi": "or"}, "full+cmp"),
         "simple": (qparser.SimpleParser("body", schema), {"group": "or", "fields": ["body"], "multi": "or"},
                    "plusminus"),
         "dismax": (qparser.DisMaxParser({"body": 1.0, "title": 1.5}, schema),
                    {"group": "or", "fields": ["body", "title"], "multi": "dismax"}, "plusminus"),
     }
+
+
+def _with(parser, plugin):
+    parser.add_plugin(plugin)
+    return parser
 
 
 def rich_schema():
@@ -131,8 +138,12 @@ def rword(rng):
     return [rng.randrange(1, 4) for _ in range(rng.randrange(1, 3))]
 
 
-def rand_leaf(rng):
+def rand_leaf(rng, cmp=False):
     f = rng.choice(["", "", "", "title", "body"])
+    if cmp and rng.random() < 0.5:
+        # (bounds among the values the documents have: whether the bound itself is included shows)
+        return {"op": "cmp", "f": "num", "rel": rng.choice(["<", "<=", "=<", ">", ">=", "=>", "=<", "=>"]),
+                "n": rng.randrange(-3, 8)}
     k = rng.random()
     if k < 0.08:
         # a word the title analyzer breaks at hyphens (always written with the field prefix)
@@ -170,12 +181,12 @@ def fix_open_range(e):
     return e
 
 
-def rand_expr(rng, depth):
+def rand_expr(rng, depth, cmp=False):
     if depth <= 0 or rng.random() < 0.2:
-        return fix_open_range(rand_leaf(rng))
+        return fix_open_range(rand_leaf(rng, cmp))
     op = rng.choice(["not", "and", "and", "or", "or", "andnot", "andmaybe", "require", "group", "group", "boost",
                      "fgroup"])
-    sub = lambda: rand_expr(rng, depth - 1)
+    sub = lambda: rand_expr(rng, depth - 1, cmp)
     if op == "not":
         return {"op": "not", "e": sub()}
     if op in ("and", "or", "group"):
@@ -254,8 +265,8 @@ def semantic(run, rng, nworlds, nexprs):
                 idx = w.abstract_index(s.reader())
                 cases = []
                 for pname, (parser, cfg, lang) in sorted(parsers.items()):
-                    exprs = [rand_expr(rng, rng.randrange(0, 4)) if lang == "full" else rand_pm(rng)
-                             for _ in range(nexprs)]
+                    exprs = [rand_expr(rng, rng.randrange(0, 4), cmp=(lang == "full+cmp")) if lang.startswith("full")
+                             else rand_pm(rng) for _ in range(nexprs)]
                     cases.append({"idx": idx, "cfg": cfg, "parser": pname, "qs": [{"e": e, "obs": []} for e in exprs]})
                 # phase 1: TLC renders the expressions
                 res = _tlc_json(cases, "QueryLangRender.cfg")
